@@ -121,7 +121,7 @@ def gen_cov(rng, F):
 
 
 def gen_source(rng, i, F, for_cache=False):
-    kind = rng.choice(['rgba', 'rgba', 'rgba', 'rgb', 'pal', 'key'])
+    kind = rng.choice(['rgba', 'rgba', 'rgba', 'rgb', 'pal', 'key', 'trns'])
     s = {'id': ('cs%d' if for_cache else 's%d') % i, 'url': rng.choice(['A', 'A', 'A', 'A', 'B', 'B', 'U%d' % (i % 8)]),
          'opacity': None, 'key': None,
          'cov': None, 'min_res': None, 'max_res': None}
@@ -437,6 +437,8 @@ def source_picture(s, bbox, size, res):
     feats.add('opaque' if not s['transparent'] else 'transp')
     if s['kind'] == 'pal' and s['transparent']:
         feats.add('pal')
+    if s['kind'] == 'trns' and s['transparent']:
+        feats.add('trns')
     if s.get('key'):
         f, m = compose.color_key(f, s['key']['color'], s['key']['tol'])
         feats.add('colorkey')
